@@ -140,8 +140,39 @@ def mutate_value(rng, v):
 
 # ------------------------------------------------------------------ IPv4 / CIDR
 
+IP6 = ['::', '::1', '1::', '1:2:3:4:5:6:7:8', '1:2:3:4:5:6:7::', '::2:3:4:5:6:7:8', '1::8', '::ffff:1.2.3.4',
+       '1:2:3:4:5:6:1.2.3.4', 'fe80::1%eth0', 'fe80::1%', '1:2:3:4:5:6:7:8:9', '1::2::3', ':1:2:3:4:5:6:7', '1:2:3:4:5:6:7:',
+       ':::', '12345::', 'g::', '::1.2.3', '1.2.3.4::', '0001::', '::00001', '1:2:3:4:5:6:7::8', ' ::1', '::1 ', '::FFFF',
+       '1::1.2.3.4', '2001:db8::1', '2001:db8:0:0:1::', 'fe80::a%1%2', '::ffff:10.0.0.1', '::/0', 'FE80::Abc', '::1.2.3.256',
+       '1:2:3:4:5:6:7', '1:2:3:4:5:6::1.2.3.4', '1:2:3:4:5::1.2.3.4']
+
+
+def gen_ip6(rng):
+    if rng.random() < 0.5:
+        return pick(rng, IP6)
+    groups = ['%x' % pick(rng, [0, 1, 0xfe80, 0x2001, 0xdb8, 0xffff, rng.randint(0, 0xffff)]) for _ in range(8)]
+    r = rng.random()
+    if r < 0.5:
+        i = rng.randint(0, 7)
+        j = rng.randint(i + 1, 8)
+        return ':'.join(groups[:i]) + '::' + ':'.join(groups[j:])
+    if r < 0.6:
+        return ':'.join(groups[:6]) + ':%d.%d.%d.%d' % tuple(rng.randint(0, 255) for _ in range(4))
+    return ':'.join(groups)
+
+
+def net6_of(ip, prefix):
+    import ipaddress
+    try:
+        return str(ipaddress.ip_network((int(ipaddress.IPv6Address(ip.split('%')[0])) >> (128 - prefix) << (128 - prefix), prefix)))
+    except Exception:
+        return ip + '/%d' % prefix
+
+
 def gen_ip(rng):
     r = rng.random()
+    if r < 0.18:
+        return gen_ip6(rng)
     if r < 0.7:
         return '%d.%d.%d.%d' % (pick(rng, [10, 192, 127, 0, 255, 172]), rng.randint(0, 255), pick(rng, [0, 1, 168, 255]),
                                 rng.randint(0, 255))
@@ -168,6 +199,20 @@ def valid_ip(ip):
 def gen_cidr_for(rng, ip):
     """a network argument aimed at `ip`: containing it, just missing it, with host bits, malformed"""
     r = rng.random()
+    if ':' in ip:
+        if r < 0.5:
+            return net6_of(ip, pick(rng, [0, 1, 10, 16, 32, 48, 64, 96, 112, 127, 128]))
+        if r < 0.6:
+            return ip + '/' + str(pick(rng, [0, 16, 64, 128, 129]))
+        return pick(rng, ['::/0', '::1/128', 'fe80::/10', 'fe80::1/64', '2001:db8::/32', '::/129', '1::/-1', 'fe80::%1/64', '::/ 1',
+                          '::/01', '::/ffff::', '::ffff:0:0/96', '10.0.0.0/8', '0.0.0.0/0', '::', ip])
+    if valid_ip(ip) and r < 0.08:
+        # netmask / hostmask spellings of the prefix
+        pfx = pick(rng, [0, 8, 16, 24, 31, 32])
+        mask = (0xffffffff >> (32 - pfx) << (32 - pfx)) if pfx else 0
+        if rng.random() < 0.3:
+            mask ^= 0xffffffff
+        return net_of(ip, pfx).split('/')[0] + '/%d.%d.%d.%d' % ((mask >> 24) & 255, (mask >> 16) & 255, (mask >> 8) & 255, mask & 255)
     if valid_ip(ip) and r < 0.45:
         return net_of(ip, pick(rng, [0, 1, 7, 8, 9, 16, 23, 24, 25, 30, 31, 32]))
     if valid_ip(ip) and r < 0.6:
@@ -179,7 +224,9 @@ def gen_cidr_for(rng, ip):
         return ip
     return pick(rng, ['10.0.0.0/8', '192.168.0.0/16', '0.0.0.0/0', '10.0.0.0/33', '10.0.0.0/', '10.0.0.0/-1',
                       '10.0.0.0/8/8', '10.0.0.0/08', '10.0.0.0/032', '10.0.0/8', 'x', '', '10.0.0.0/٨',
-                      '127.0.0.1/32', '127.0.0.0/31', '10.1.0.0/8', '256.0.0.0/8', '10.0.0.0 /8', '10.0.0.0/ 8'])
+                      '127.0.0.1/32', '127.0.0.0/31', '10.1.0.0/8', '256.0.0.0/8', '10.0.0.0 /8', '10.0.0.0/ 8',
+                      '10.0.0.0/255.0.0.0', '10.0.0.0/0.255.255.255', '10.0.0.0/255.0.255.0', '10.0.0.1/255.0.0.0',
+                      '0.0.0.0/0.0.0.0', '10.0.0.0/255.255.255.255', '::/0', '::ffff:0:0/96'])
 
 
 # ------------------------------------------------------------------ regex patterns (modelled subset)
